@@ -407,40 +407,71 @@ inductive Op
   | envCertErr (b : Bool)
 deriving Repr
 
+/-- the `if context changed` block of Voter.updateContext: flush the pending header update, new ring slot, reset latches -/
+def ctxReset (v : Voter) (c : Ctx) : Voter × List Out :=
+  if !v.started || v.round ≠ c.round || v.index ≠ c.index then
+    ({ v with updateEv := none, ws := newW v.ws c, precommitted := false, committed := false, sentChange := false,
+              certificated := false, curMarked := if c.index = 1 then none else v.nextVoted,
+              nextMarked := none, nextVoted := none, over := fun _ _ _ => false, overT := fun _ _ => 0 },
+     match v.updateEv with
+     | some (uc, uh) =>
+       (match getW v.ws uc with
+        | some _ => [Out.update uc uh (votesOf v.ws uc true .precommit uh) (votesOf v.ws uc false .precommit uh)]
+        | none => [])
+     | none => [])
+  else (v, [])
+
+/-- what Voter.updateContext does after storing the new context: the own prevote (step 2) or setMarkedBlock (steps 4, 5) -/
+def ctxCall (v : Voter) (step : Nat) : Option Call :=
+  if step = 2 then
+    match v.curMarked with
+    | some (ch, cp) =>
+      if ch ≠ 0 then some (.vote .prevote ch cp)
+      else match v.env.maxPrio with
+        | none => none
+        | some (p, h) => some (.vote .prevote h p)
+    | none =>
+      match v.env.maxPrio with
+      | none => none
+      | some (p, h) => some (.vote .prevote h p)
+  else if step = 4 ∨ step = 5 then
+    if v.committed || v.sentChange then none
+    else match v.nextMarked with
+      | none => some (.mark 0 0)
+      | some (h, p) => some (.mark h p)
+  else none
+
+/-- v.round = ev.Round … v.voteCache.UpdateContext(v.round, v.roundIndex) -/
+def ctxStore (v : Voter) (c : Ctx) (step : Nat) (cert : Bool) : Voter :=
+  { v with started := true, round := c.round, index := c.index, step := step, shouldCert := cert,
+           db := v.db.updateContext c.round c.index }
+
 /-- Voter.updateContext -/
 def updateContext (v : Voter) (c : Ctx) (step : Nat) (cert : Bool) : Voter × List Out :=
-  let changed := !v.started || v.round ≠ c.round || v.index ≠ c.index
-  let (v1, o1) : Voter × List Out :=
-    if changed then
-      let (o, ue) : List Out × Option (Ctx × Hash) := match v.updateEv with
-        | some (uc, uh) =>
-          (match getW v.ws uc with
-            | some _ => [Out.update uc uh (votesOf v.ws uc true .precommit uh) (votesOf v.ws uc false .precommit uh)]
-            | none => [], none)
-        | none => ([], none)
-      ({ v with updateEv := ue, ws := newW v.ws c, precommitted := false, committed := false, sentChange := false,
-                certificated := false, curMarked := if c.index = 1 then none else v.nextVoted,
-                nextMarked := none, nextVoted := none, over := fun _ _ _ => false, overT := fun _ _ => 0 }, o)
-    else (v, [])
-  let v2 := { v1 with started := true, round := c.round, index := c.index, step := step, shouldCert := cert,
-                      db := v1.db.updateContext c.round c.index }
-  if step = 2 then
-    match v2.curMarked with
-    | some (ch, cp) =>
-      if ch ≠ 0 then let (v3, o3, _) := exec FUEL v2 (.vote .prevote ch cp); (v3, o1 ++ o3)
-      else match v2.env.maxPrio with
-        | none => (v2, o1)
-        | some (p, h) => let (v3, o3, _) := exec FUEL v2 (.vote .prevote h p); (v3, o1 ++ o3)
-    | none =>
-      match v2.env.maxPrio with
-      | none => (v2, o1)
-      | some (p, h) => let (v3, o3, _) := exec FUEL v2 (.vote .prevote h p); (v3, o1 ++ o3)
-  else if step = 4 ∨ step = 5 then
-    if v2.committed || v2.sentChange then (v2, o1)
-    else match v2.nextMarked with
-      | none => let (v3, o3, _) := exec FUEL v2 (.mark 0 0); (v3, o1 ++ o3)
-      | some (h, p) => let (v3, o3, _) := exec FUEL v2 (.mark h p); (v3, o1 ++ o3)
-  else (v2, o1)
+  match ctxCall (ctxStore (ctxReset v c).1 c step cert) step with
+  | none => (ctxStore (ctxReset v c).1 c step cert, (ctxReset v c).2)
+  | some call =>
+    ((exec FUEL (ctxStore (ctxReset v c).1 c step cert) call).1,
+     (ctxReset v c).2 ++ (exec FUEL (ctxStore (ctxReset v c).1 c step cert) call).2.1)
+
+/-- the counting part of processVoteMsg (after the wrapper was found) -/
+def countVote (v : Voter) (m : Msg) (old : Bool) : Voter × List Out × Ret :=
+  match kindChamber? m.kind, getW v.ws m.ctx with
+  | some ch, some w =>
+    if m.vt = .other then (v, [], .ok) else
+    let ai := (w.sta ch m.vt).addrVoteInfo (decide (m.vt = .next)) m.sender m.h
+    let v1 : Voter := { v with ws := setW v.ws m.ctx (w.set ch m.vt ai.1) }
+    match ai.2 with
+    | .notVoted =>
+      let nv := v1.newVoteAt m.ctx m.kind m.vt m.sender m.h m.votes (decide (m.cred = .valid))
+      if !nv.2.1 then (nv.1, [], .ok)
+      else if !old then
+        ((exec FUEL nv.1 (.judge m.vt nv.2.2 m.T m.h m.p m.kind)).1, (exec FUEL nv.1 (.judge m.vt nv.2.2 m.T m.h m.p m.kind)).2.1, .ok)
+      else if overThreshold nv.2.2 m.T false then
+        (nv.1, [.update m.ctx m.h (votesOf nv.1.ws m.ctx true .precommit m.h) (votesOf nv.1.ws m.ctx false .precommit m.h)], .ok)
+      else (nv.1, [], .ok)
+    | _ => (v1, [], .ok)
+  | _, _ => (v, [], .ok)
 
 /-- Voter.processVoteMsg -/
 def processVoteMsg (v : Voter) (m : Msg) : Voter × List Out × Ret :=
@@ -455,33 +486,15 @@ def processVoteMsg (v : Voter) (m : Msg) : Voter × List Out × Ret :=
   else if m.cred = .reject then (v, [], .sortitionErr)
   else if m.status = .future ∨ m.status = .invalid then (v, [], .ok)
   else
-    let old := decide (m.status = .oldRound ∨ m.status = .oldIndex)
     match getW v.ws m.ctx with
     | none =>
-      if old then (v, [], .ok)
+      if m.status = .oldRound ∨ m.status = .oldIndex then (v, [], .ok)
       else  -- status = same: NewWrapper + votesMgr := wrapper (unreachable: the current context always has one)
-        body { v with ws := newW v.ws m.ctx } old
+        countVote { v with ws := newW v.ws m.ctx } m false
     | some _ =>
-      if old ∧ m.vt ≠ .precommit then (v, [], .ok) else body v old
-where
-  body (v : Voter) (old : Bool) : Voter × List Out × Ret :=
-    match kindChamber? m.kind, getW v.ws m.ctx with
-    | some ch, some w =>
-      if m.vt = .other then (v, [], .ok) else
-      let (s1, res) := (w.sta ch m.vt).addrVoteInfo (decide (m.vt = .next)) m.sender m.h
-      let v1 := { v with ws := setW v.ws m.ctx (w.set ch m.vt s1) }
-      match res with
-      | .notVoted =>
-        let (v2, add, cnt) := v1.newVoteAt m.ctx m.kind m.vt m.sender m.h m.votes (decide (m.cred = .valid))
-        if !add then (v2, [], .ok)
-        else if !old then
-          let (v3, outs, _) := exec FUEL v2 (.judge m.vt cnt m.T m.h m.p m.kind)
-          (v3, outs, .ok)
-        else if overThreshold cnt m.T false then
-          (v2, [.update m.ctx m.h (votesOf v2.ws m.ctx true .precommit m.h) (votesOf v2.ws m.ctx false .precommit m.h)], .ok)
-        else (v2, [], .ok)
-      | _ => (v1, [], .ok)
-    | _, _ => (v, [], .ok)
+      if m.status = .oldRound ∨ m.status = .oldIndex then
+        (if m.vt ≠ .precommit then (v, [], .ok) else countVote v m true)
+      else countVote v m false
 
 def applyEnv (e : Env) : Op → Env
   | .envSel vt s => { e with sel := fun t => if t = vt then s else e.sel t }
